@@ -472,4 +472,71 @@ func c08Registration(r *Result) {
 		<-ret
 		r.Stats["registration-scenarios"]++
 	}
+	// ... and withdrawn again: Handle(op, nil) is the API's only way to take a handler back (and to switch the built-in Discover
+	// Versions handler off). An operation whose entry is nil has no handler registered: Operation Not Supported, like an
+	// operation never mentioned - not a call through a nil func reported as a handler panic.
+	for _, when := range []string{"before Serve", "after Serve started"} {
+		key := "Destroy registered and withdrawn with Handle(op, nil), built-in Discover Versions withdrawn with Handle(op, nil), " + when
+		crumb("C08 scenario: " + key)
+		r.eval(key, true)
+		var mu sync.Mutex
+		var calls []string
+		s := &kmip.Server{}
+		s.Handle(kmip.OPERATION_GET, mk(&calls, &mu, "get"))
+		s.Handle(kmip.OPERATION_DESTROY, mk(&calls, &mu, "destroy"))
+		withdraw := func() {
+			s.Handle(kmip.OPERATION_DESTROY, nil)
+			s.Handle(kmip.OPERATION_DISCOVER_VERSIONS, nil)
+		}
+		if when == "before Serve" {
+			withdraw()
+		}
+		sc, cc := rec.Pipe()
+		l := rec.NewListener()
+		init := make(chan struct{})
+		ret := make(chan error, 1)
+		go func() { ret <- s.Serve(l, init) }()
+		<-init
+		if when != "before Serve" {
+			withdraw()
+		}
+		l.Push(rec.AcceptStep{Conn: rec.NewConn(sc, 1)})
+		_ = cc.SetDeadline(time.Now().Add(3 * time.Second))
+		req := kmip.Request{Header: kmip.RequestHeader{Version: kmip.ProtocolVersion{Major: 1, Minor: 4}, BatchCount: 4},
+			BatchItems: []kmip.RequestBatchItem{
+				{Operation: kmip.OPERATION_GET, UniqueID: []byte{1}, RequestPayload: kmip.GetRequest{UniqueIdentifier: "a"}},
+				{Operation: kmip.OPERATION_DISCOVER_VERSIONS, UniqueID: []byte{2}, RequestPayload: kmip.DiscoverVersionsRequest{}},
+				{Operation: kmip.OPERATION_DESTROY, UniqueID: []byte{3}, RequestPayload: kmip.DestroyRequest{UniqueIdentifier: "b"}},
+				{Operation: kmip.OPERATION_GET, UniqueID: []byte{4}, RequestPayload: kmip.GetRequest{UniqueIdentifier: "c"}}}}
+		var resp kmip.Response
+		err := kmip.NewEncoder(cc).Encode(&req)
+		if err == nil {
+			err = kmip.NewDecoder(cc).Decode(&resp)
+		}
+		obs := "no response: " + fmt.Sprint(err)
+		if err == nil {
+			mu.Lock()
+			obs = "calls=" + strings.Join(calls, ",") + " results="
+			mu.Unlock()
+			for _, it := range resp.BatchItems {
+				obs += fmt.Sprintf("[%d:%d:%s]", uint32(it.ResultStatus), uint32(it.ResultReason), it.ResultMessage)
+			}
+		}
+		// "before Serve": Serve installs the built-in Discover Versions handler when the table has no entry for it; an entry
+		// withdrawn before Serve is no entry ... or is it? Either reading is a handler decision of the library's, not a panic:
+		// accepted are Not Supported, or the built-in handler's Success.
+		ns := fmt.Sprintf("[1:%d:operation not supported]", uint32(kmip.RESULT_REASON_OPERATION_NOT_SUPPORTED))
+		get := fmt.Sprintf("[1:%d:get]", uint32(kmip.RESULT_REASON_PERMISSION_DENIED))
+		exp := "calls=get,get results=" + get + ns + ns + get
+		alt := "calls=get,get results=" + get + "[0:0:]" + ns + get
+		if obs != exp && !(when == "before Serve" && obs == alt) {
+			r.find(Finding{Kind: "violation", What: "an operation whose handler was withdrawn (Handle(op, nil)) was not reported as Operation Not Supported", Input: key, Expect: exp, Actual: obs})
+		}
+		cc.Close()
+		ctx, cancel := context.WithTimeout(context.Background(), 5*time.Second)
+		_ = s.Shutdown(ctx)
+		cancel()
+		<-ret
+		r.Stats["registration-scenarios"]++
+	}
 }
